@@ -100,7 +100,10 @@ pub fn hex<'a>() -> impl chumsky::Parser<'a, &'a str, usize, Err<'a>> + Clone {
             text::digits(16)
                 .at_least(1)
                 .to_slice()
-                .map(|s: &str| usize::from_str_radix(s, 16).unwrap()),
+                .try_map(|s: &str, span| {
+                    usize::from_str_radix(s, 16)
+                        .map_err(|_| Rich::custom(span, "number is out of range"))
+                }),
         )
         .padded()
         .labelled("hexidecimal number")
@@ -128,7 +131,9 @@ pub fn brkpt_at_line_parser<'a>() -> impl chumsky::Parser<'a, &'a str, Breakpoin
         .repeated()
         .to_slice()
         .then_ignore(just(':'))
-        .then(text::int(10).from_str().unwrapped())
+        .then(text::int(10).from_str().try_map(|number, span| {
+            number.map_err(|_| Rich::custom(span, "number is out of range"))
+        }))
         .map(|(file, line): (&str, u64)| BreakpointIdentity::Line(file.trim().to_string(), line))
         .padded()
 }
@@ -136,7 +141,7 @@ pub fn brkpt_at_line_parser<'a>() -> impl chumsky::Parser<'a, &'a str, Breakpoin
 pub fn brkpt_number<'a>() -> impl chumsky::Parser<'a, &'a str, BreakpointIdentity, Err<'a>> {
     text::int(10)
         .from_str()
-        .unwrapped()
+        .try_map(|number, span| number.map_err(|_| Rich::custom(span, "number is out of range")))
         .map(|number: u32| BreakpointIdentity::Number(number))
         .padded()
 }
@@ -344,7 +349,9 @@ impl Command {
                     .to(Command::SourceCode(source_code::Command::Function)),
                 text::int(10)
                     .from_str()
-                    .unwrapped()
+                    .try_map(|number, span| {
+                        number.map_err(|_| Rich::custom(span, "number is out of range"))
+                    })
                     .map(|num| Command::SourceCode(source_code::Command::Range(num)))
                     .padded(),
             )))
@@ -401,7 +408,9 @@ impl Command {
                     .ignore_then(choice((
                         text::int(10)
                             .from_str()
-                            .unwrapped()
+                            .try_map(|number, span| {
+                                number.map_err(|_| Rich::custom(span, "number is out of range"))
+                            })
                             .map(|number: u32| WatchpointIdentity::Number(number))
                             .padded(),
                         watchpoint_at_address(),
@@ -461,7 +470,9 @@ impl Command {
                 sub_op_w_arg(THREAD_COMMAND_SWITCH_SUBCOMMAND)
                     .ignore_then(text::int(10))
                     .from_str()
-                    .unwrapped()
+                    .try_map(|number, span| {
+                        number.map_err(|_| Rich::custom(span, "number is out of range"))
+                    })
                     .map(|num| Command::Thread(thread::Command::Switch(num)))
                     .padded(),
             )))
@@ -471,7 +482,9 @@ impl Command {
             .ignore_then(choice((
                 sub_op(FRAME_COMMAND_INFO_SUBCOMMAND).to(Command::Frame(frame::Command::Info)),
                 sub_op(FRAME_COMMAND_SWITCH_SUBCOMMAND)
-                    .ignore_then(text::int(10).from_str().unwrapped())
+                    .ignore_then(text::int(10).from_str().try_map(|number, span| {
+                        number.map_err(|_| Rich::custom(span, "number is out of range"))
+                    }))
                     .map(|num| Command::Frame(frame::Command::Switch(num)))
                     .padded(),
             )))
@@ -529,7 +542,9 @@ impl Command {
                     sub_op(TRIGGER_COMMAND_BRKPT_TRIGGER_SUBCOMMAND)
                         .ignore_then(text::int(10))
                         .from_str()
-                        .unwrapped()
+                        .try_map(|number, span| {
+                            number.map_err(|_| Rich::custom(span, "number is out of range"))
+                        })
                         .map(|num| {
                             trigger::Command::AttachToDefined(trigger::TriggerEvent::Breakpoint(
                                 num,
@@ -538,7 +553,9 @@ impl Command {
                     sub_op(TRIGGER_COMMAND_WP_TRIGGER_SUBCOMMAND)
                         .ignore_then(text::int(10))
                         .from_str()
-                        .unwrapped()
+                        .try_map(|number, span| {
+                            number.map_err(|_| Rich::custom(span, "number is out of range"))
+                        })
                         .map(|num| {
                             trigger::Command::AttachToDefined(trigger::TriggerEvent::Watchpoint(
                                 num,
